@@ -1,3 +1,4 @@
+pub mod cli;
 pub mod exec;
 pub mod lex;
 pub mod lexrec;
@@ -40,6 +41,7 @@ pub fn record(family: &str, args: &[String]) -> i32 {
     std::panic::set_hook(Box::new(|_| {}));
     match family {
         "lex" => lexrec::record(args),
+        "cli" => cli::record(args),
         _ => {
             eprintln!("no recorder for family {}", family);
             2
